@@ -1468,6 +1468,36 @@ pub fn gen(ctx: &Ctx, emit: &mut dyn FnMut(String)) {
             }
         }
     }
+    // DW_AT_sibling pointers of every value around an entry with children: before the entry, inside
+    // the entry itself (after its first byte, before its end), at its end, at each later entry, past
+    // the unit — in every unit-reference form; the sibling fast path of `next_sibling` and of the tree
+    // must treat an unusable pointer as absent
+    for (form, width) in [(0x11u8, 1usize), (0x12, 2), (0x13, 4), (0x14, 8), (0x15, 0)] {
+        for x in (0u64..48).chain([0x7f, 0x80, 0xff, 0x100, 0xffff, 0xffff_ffff, u64::MAX]) {
+            // abbrevs: 1 = CU (children); 2 = subprogram (children): name(string), sibling(form), decl_line(data2);
+            // 3 = variable (no children)
+            let ab = vec![1u8, 0x11, 1, 0, 0, 2, 0x2e, 1, 0x03, 0x08, 0x01, form, 0x3b, 0x05, 0, 0, 3, 0x34, 0, 0, 0, 0];
+            let mut dies = vec![1u8, 2, b'A', 0];
+            if width == 0 {
+                dies.extend(uleb(x));
+            } else {
+                dies.extend_from_slice(&x.to_le_bytes()[..width]);
+            }
+            dies.extend_from_slice(&[7, 0]);
+            dies.extend_from_slice(&[3, 0, 3, 2, b'B', 0]);
+            if width == 0 {
+                dies.extend(uleb(x / 2));
+            } else {
+                dies.extend_from_slice(&(x / 2).to_le_bytes()[..width]);
+            }
+            dies.extend_from_slice(&[9, 0, 0, 0]);
+            let mut body = vec![4u8, 0, 0, 0, 0, 0, 8];
+            body.extend(dies);
+            let mut unit = (body.len() as u32).to_le_bytes().to_vec();
+            unit.extend(body);
+            emit(format!("c01 info - le {} {}", hex(&ab), hex(&unit)));
+        }
+    }
     // DWARF 5 line headers: every small shape of the two entry-format descriptions and entry counts
     // (no format / no path / one path / two paths / unknown content types) — the parsers of the
     // entries rely on what the format parser has checked
